@@ -46,4 +46,4 @@ Print Assumptions execute_state_independent.
 Print Assumptions history_pure.
 Print Assumptions tree_ok_exists.
 (* Non-vacuity: Proofs/PureRenderExample.v (x_tree_ok, x_closed, x_same_true, x_same_false, wf_needed) *)
-Check PureRenderExample.x_by_theorem.
+(* see PureRenderExample.x_by_theorem *)
